@@ -71,6 +71,7 @@ class UnitSpec:
         self.kind = "bin"
         self.extconsts = []         # (path text, type, value): associated consts of external types (R10)
         self.constmod = None        # (module path, file): where the R10 helpers live (default: the prelude module)
+        self.fieldshims = []        # (owner field, field, helper): R13 `X.owner.field` -> helper(&X.owner)
 
 
 def parse_vspec(path):
@@ -98,6 +99,10 @@ def parse_vspec(path):
         elif kw == "feature": u.features.append(rest)
         elif kw == "prelude": u.prelude = rest
         elif kw == "floor": u.floor = int(rest)
+        elif kw == "fieldshim":
+            a = rest.split()
+            o, f_ = a[0].split(".")
+            u.fieldshims.append((o, f_, a[1]))
         elif kw == "constmod":
             a = rest.split()
             u.constmod = (a[0], a[1])
@@ -350,14 +355,45 @@ def process_fn(toks, it, fs: FnSpec, qual, ed: Edits, log, unit_in_trait_impl):
             params = hdr[1:endp]
             tail = hdr[endp + 1:].strip()
             ret = tail[2:].strip() if tail.startswith("->") else None
+            # "(name: Type as PATTERN)": the original parameter was a pattern (R3): bind it inside the body
+            rc_lets = []
+            mm = re.match(r"^\s*(\w+)\s*:\s*(.*?)\s+as\s+(.+)$", params)
+            if mm:
+                params = f"{mm.group(1)}: {mm.group(2)}"
+                rc_lets.append(f"let {mm.group(3)} = {mm.group(1)};")
             head = "|" + params + "|" + (f" -> {ret}" if ret else "")
             spec = ("\n" + "\n".join(raw) + "\n") if raw else " "
             old = src[toks[c.bar1].pos:toks[c.bar2].end]
-            ed.replace(toks[c.bar1].pos, toks[c.bar2].end, head + spec + ("" if c.block else "{ "))
-            if not c.block:
+            if c.block:
+                ed.replace(toks[c.bar1].pos, toks[c.bar2].end, head + spec)
+                if rc_lets:
+                    ed.insert(toks[c.body_first].end, " " + " ".join(rc_lets), prio=-8)
+            else:
+                ed.replace(toks[c.bar1].pos, toks[c.bar2].end, head + spec + "{ " + " ".join(rc_lets) + " ")
                 ed.insert(toks[c.body_last].end, " }", prio=-9)
             log["rewrites"].append({"rule": "RC", "fn": qual, "before": old, "after": head,
                                     "note": "closure parameter types / named result / contract added; body kept verbatim"})
+    # R13 (automatic, unit-level list): field read through a type kept outside Verus:  RECV.owner.field -> helper(&RECV.owner)
+    if UNIT is not None and UNIT.fieldshims:
+        sgi = [k for k in range(lo, hi) if toks[k].kind not in ("ws", "comment")]
+        for owner, fld, helper in UNIT.fieldshims:
+            cnt = 0
+            for ii in range(len(sgi) - 3):
+                a, b, c2, d = (toks[sgi[ii + x]] for x in range(4))
+                if a.text == "." and b.kind == "ident" and b.text == owner and c2.text == "." and d.kind == "ident" and d.text == fld:
+                    nxt = toks[sgi[ii + 4]] if ii + 4 < len(sgi) else None
+                    if nxt is not None and nxt.text == "(":
+                        continue  # a method call, not a field
+                    jj = ii - 1
+                    if jj < 0 or toks[sgi[jj]].kind != "ident":
+                        continue
+                    while jj - 2 >= 0 and toks[sgi[jj - 1]].text == "." and toks[sgi[jj - 2]].kind == "ident":
+                        jj -= 2
+                    recv = src[toks[sgi[jj]].pos:toks[sgi[ii + 1]].end]
+                    ed.replace(toks[sgi[jj]].pos, toks[sgi[ii + 3]].end, f"{helper}(&{recv})")
+                    cnt += 1
+            if cnt:
+                log["rewrites"].append({"rule": "R13", "fn": qual, "before": f"X.{owner}.{fld}", "after": f"{helper}(&X.{owner})", "count": cnt})
     # R8 (automatic): let-chains  `if A && let P = E && B { body }`  (no else)  ->  nested ifs, Rust's own desugaring
     k = lo
     while k < hi:
@@ -585,6 +621,30 @@ def process_fn(toks, it, fs: FnSpec, qual, ed: Edits, log, unit_in_trait_impl):
                 ed.replace(toks[sg_idx[jj]].pos, toks[open_paren].end, f"{helper}({recv}, ")
                 ed.replace(toks[tail[0]].pos, toks[tail[3]].end, "")
                 cnt += 1
+        # X.iter().filter(c).map(|(k, v)| (*k, *v)).collect()  (copying sub-map) -> vx_hashmap_filter_copy(X, c)
+        for ii in range(len(sg_idx) - 6):
+            seq = [toks[sg_idx[ii + d]].text for d in range(7)]
+            if seq == [".", "iter", "(", ")", ".", "filter", "("]:
+                jj = ii - 1
+                if jj < 0 or toks[sg_idx[jj]].kind != "ident":
+                    continue
+                while jj - 2 >= 0 and toks[sg_idx[jj - 1]].text == "." and toks[sg_idx[jj - 2]].kind == "ident":
+                    jj -= 2
+                recv = src[toks[sg_idx[jj]].pos:toks[sg_idx[ii - 1]].end]
+                open_paren = sg_idx[ii + 6]
+                close_paren = match_close(toks, open_paren)
+                tail = []
+                k2 = next_sig(toks, close_paren + 1, hi)
+                while k2 is not None and len(tail) < 24:
+                    tail.append(k2)
+                    k2 = next_sig(toks, k2 + 1, hi)
+                ttxt = [toks[x].text for x in tail]
+                want = [".", "map", "(", "|", "(", None, ",", None, ")", "|", "(", "*", None, ",", "*", None, ")", ")", ".", "collect", "(", ")"]
+                ok = len(ttxt) >= len(want) and all(w is None or w == t for w, t in zip(want, ttxt))
+                if ok and ttxt[5] == ttxt[12] and ttxt[7] == ttxt[15]:
+                    ed.replace(toks[sg_idx[jj]].pos, toks[open_paren].end, f"vx_hashmap_filter_copy({recv}, ")
+                    ed.replace(toks[tail[0]].pos, toks[tail[len(want) - 1]].end, "")
+                    cnt += 1
         # X.iter().take_while(c).collect() -> vx_take_while_collect(X.as_slice(), c)
         for ii in range(len(sg_idx) - 6):
             seq = [toks[sg_idx[ii + d]].text for d in range(7)]
